@@ -77,3 +77,21 @@ KEYS = {
 SCALS = ['1', 'x', 'true', '1.5', '~', 'red', '"1"']
 SCALS_BY = {'WD': ['1', 'seven', '2001-01-01', '~', 'a/b', '1.5'],
             'SH': ['1', '1.5', 'x', '~'], 'BF': ['1', 'true', 'x', '~']}
+
+
+# models fuzzed by fuzz/fuzz_load.py: the portfolio plus models with hooks,
+# extras below a hierarchy, Any/untyped positions and a registered trap class
+_TRAP = C('Trap', [P('a', 'int', ['int', 0])])
+_HK = C('HK', [P('some_key', 'int'), P('note', 'any', ['none']), P('u', None, ['none'])],
+        extra='default', savorize=[['dashes_to_unders'], ['raise_if_has', 'forbidden']])
+_PM = C('PM', [P('a', 'int')], recognize='permissive')
+_IX = C('IX', [P('items', ['dict', 'str', REF('V')])],
+        savorize=[['map_to_index', 'items', 'x', 'y']])
+FUZZ_MODELS = dict(MODELS)
+FUZZ_MODELS.update({
+    'HK': {'classes': [_HK, _TRAP], 'doc_type': REF('HK'), 'order': ['HK', 'Trap']},
+    'PM': {'classes': [_PM, _TRAP], 'doc_type': ['list', REF('PM')], 'order': ['PM', 'Trap']},
+    'ANY': {'classes': [_P, _TRAP], 'doc_type': 'any', 'order': ['P', 'Trap']},
+    'T1T': {'classes': [_P, _C1, _C2, _G, _V, _US, _T1, _TRAP], 'doc_type': REF('T1'),
+            'order': ['P', 'C1', 'C2', 'G', 'V', 'US', 'T1', 'Trap']},
+})
